@@ -15,6 +15,9 @@
 From Coq Require Import List NArith PArith Bool Arith FMapPositive.
 From OxiVerif Require Import DD.Table DD.TableProofs DD.Sem DD.Build DD.BuildProofs
   DD.Apply DD.ApplyProofs DD.ApplyEvalProofs Mgr.Oom Mgr.OomProofs Mgr.OomSafe Mgr.OomGc Mgr.OomExamples.
+From Coq Require Import Permutation.
+From OxiVerif Require Import Mgr.Conc Mgr.ConcProofs Mgr.ConcGc Mgr.ConcGcProofs
+  Mgr.OomOwn Mgr.OomOwnProofs Mgr.OomOwnSafe Mgr.OomOwnGc Mgr.OomOwnThms Mgr.OomOwnExamples.
 Import ListNotations.
 
 (** ** 1. never a wrong handle: a result of the bounded run is literally the
@@ -411,3 +414,232 @@ Theorem C14_example_recover : forall s' c',
   (forall cap p, 9 <= cap -> exists su ru, not_nc cap p ex3 (RN 5) = ROk su tt ru).
 Proof. exact ex3_recover. Qed.
 Print Assumptions C14_example_recover.
+
+
+(** ** 9. C14x - ownership of edges on the error paths ("releases everything it had
+    acquired"), model Mgr/OomOwn.v: the same algorithms on the state of the interleaving
+    model of Mgr/Conc.v (table WITH reference counts [crc] + multiset [cown] of owned
+    edges), every clone_edge / drop_edge / get_or_insert / EdgeDropGuard / `?` explicit,
+    guard placement of oxidd-rules-bdd/src/recursor.rs ([guards_code]).  [OOk s' c' r] /
+    [OErr s' c'] = Err(OutOfMemory) / [OStuck] = double release, count underflow,
+    violated get_or_insert precondition, failing unwrap, fuel.  For every capacity
+    (= every failure point), cache, recursor [par], operand order [gt], fuel. *)
+
+(* (1) BALANCE + frame + (2) exact counts, no hypothesis: on [OOk] the thread owns the
+   caller's tokens plus one for the result, on [OErr] exactly the caller's tokens
+   (multisets: nothing leaked, nothing double-released); every old node keeps level
+   and children; [CInv] (counts = owners + parents) is preserved *)
+Theorem C14_own_balance_not : forall terms nl tid cap C cget cadd par fuel s (c : C) f,
+  match not_o terms nl tid cap C cget cadd par guards_code fuel s c f with
+  | OOk s' _ r => Permutation (cown s') (tokr tid r ++ cown s) /\ ext s s' /\
+                  (CInv KBdd terms nl s -> CInv KBdd terms nl s')
+  | OErr s' _ => Permutation (cown s') (cown s) /\ ext s s' /\
+                 (CInv KBdd terms nl s -> CInv KBdd terms nl s')
+  | OStuck => True
+  end.
+Proof. exact own_balance_not. Qed.
+Print Assumptions C14_own_balance_not.
+
+Theorem C14_own_balance_bin : forall terms nl tid cap gt C cget cadd par fuel s (c : C) op f g,
+  match bin_o terms nl tid cap gt C cget cadd par guards_code fuel s c op f g with
+  | OOk s' _ r => Permutation (cown s') (tokr tid r ++ cown s) /\ ext s s' /\
+                  (CInv KBdd terms nl s -> CInv KBdd terms nl s')
+  | OErr s' _ => Permutation (cown s') (cown s) /\ ext s s' /\
+                 (CInv KBdd terms nl s -> CInv KBdd terms nl s')
+  | OStuck => True
+  end.
+Proof. exact own_balance_bin. Qed.
+Print Assumptions C14_own_balance_bin.
+
+Theorem C14_own_balance_ite : forall terms nl tid cap gt C cget cadd par fuel s (c : C) f g h,
+  match ite_o terms nl tid cap gt C cget cadd par guards_code fuel s c f g h with
+  | OOk s' _ r => Permutation (cown s') (tokr tid r ++ cown s) /\ ext s s' /\
+                  (CInv KBdd terms nl s -> CInv KBdd terms nl s')
+  | OErr s' _ => Permutation (cown s') (cown s) /\ ext s s' /\
+                 (CInv KBdd terms nl s -> CInv KBdd terms nl s')
+  | OStuck => True
+  end.
+Proof. exact own_balance_ite. Qed.
+Print Assumptions C14_own_balance_ite.
+
+(* the meaning of [ext] and of [CInv] (exact counts), spelled out *)
+Theorem C14_own_ext_meaning : forall s s',
+  ext s s' <-> forall id nd, cfind (cn s) id = Some nd ->
+    exists nd', cfind (cn s') id = Some nd' /\ cl nd' = cl nd /\ cch nd' = cch nd.
+Proof. intros s s'. reflexivity. Qed.
+Print Assumptions C14_own_ext_meaning.
+
+(* (2) as a snapshot of the manager after ANY outcome: well-formed, reference counts exact
+   (the audit rc_first_bad / rc_exact_b that checks/C14.py runs after every failing op) *)
+Theorem C14_own_counts_not : forall terms nl tid cap C cget cadd par fuel s (c : C) f s',
+  CInv KBdd terms nl s -> terms_unique_b terms = true ->
+  ores_st (not_o terms nl tid cap C cget cadd par guards_code fuel s c f) = Some s' ->
+  CInv KBdd terms nl s' /\ WF (to_snap KBdd terms nl s') /\ rc_exact_b (to_snap KBdd terms nl s') [] = true.
+Proof. exact own_counts_not. Qed.
+Print Assumptions C14_own_counts_not.
+
+Theorem C14_own_counts_bin : forall terms nl tid cap gt C cget cadd par fuel s (c : C) op f g s',
+  CInv KBdd terms nl s -> terms_unique_b terms = true ->
+  ores_st (bin_o terms nl tid cap gt C cget cadd par guards_code fuel s c op f g) = Some s' ->
+  CInv KBdd terms nl s' /\ WF (to_snap KBdd terms nl s') /\ rc_exact_b (to_snap KBdd terms nl s') [] = true.
+Proof. exact own_counts_bin. Qed.
+Print Assumptions C14_own_counts_bin.
+
+Theorem C14_own_counts_ite : forall terms nl tid cap gt C cget cadd par fuel s (c : C) f g h s',
+  CInv KBdd terms nl s -> terms_unique_b terms = true ->
+  ores_st (ite_o terms nl tid cap gt C cget cadd par guards_code fuel s c f g h) = Some s' ->
+  CInv KBdd terms nl s' /\ WF (to_snap KBdd terms nl s') /\ rc_exact_b (to_snap KBdd terms nl s') [] = true.
+Proof. exact own_counts_ite. Qed.
+Print Assumptions C14_own_counts_ite.
+
+(* never stuck: no double release, no underflow, get_or_insert always gets owned edges to
+   stored nodes below its level; the result is stored, the cache invariant is kept *)
+Theorem C14_own_total_not : forall terms nl tid cap C cget cadd par,
+  bterms_ok terms -> lossy cget cadd ->
+  forall fuel s (c : C) f, CInv KBdd terms nl s -> COK terms nl C cget (cn s) c ->
+  stored terms (cn s) f -> S nl <= fuel ->
+  match not_o terms nl tid cap C cget cadd par guards_code fuel s c f with
+  | OOk s' c' r => stored terms (cn s') r /\ COK terms nl C cget (cn s') c'
+  | OErr s' c' => COK terms nl C cget (cn s') c'
+  | OStuck => False
+  end.
+Proof. exact own_total_not. Qed.
+Print Assumptions C14_own_total_not.
+
+Theorem C14_own_total_bin : forall terms nl tid cap gt C cget cadd par,
+  bterms_ok terms -> lossy cget cadd ->
+  forall fuel s (c : C) op f g, CInv KBdd terms nl s -> COK terms nl C cget (cn s) c ->
+  stored terms (cn s) f -> stored terms (cn s) g -> S nl <= fuel ->
+  match bin_o terms nl tid cap gt C cget cadd par guards_code fuel s c op f g with
+  | OOk s' c' r => stored terms (cn s') r /\ COK terms nl C cget (cn s') c'
+  | OErr s' c' => COK terms nl C cget (cn s') c'
+  | OStuck => False
+  end.
+Proof. exact own_total_bin. Qed.
+Print Assumptions C14_own_total_bin.
+
+Theorem C14_own_total_ite : forall terms nl tid cap gt C cget cadd par,
+  bterms_ok terms -> lossy cget cadd ->
+  forall fuel s (c : C) f g h, CInv KBdd terms nl s -> COK terms nl C cget (cn s) c ->
+  stored terms (cn s) f -> stored terms (cn s) g -> stored terms (cn s) h -> S nl <= fuel ->
+  match ite_o terms nl tid cap gt C cget cadd par guards_code fuel s c f g h with
+  | OOk s' c' r => stored terms (cn s') r /\ COK terms nl C cget (cn s') c'
+  | OErr s' c' => COK terms nl C cget (cn s') c'
+  | OStuck => False
+  end.
+Proof. exact own_total_ite. Qed.
+Print Assumptions C14_own_total_ite.
+
+(* the cache invariant of the TOTAL statements, spelled out *)
+Theorem C14_own_cok_meaning : forall terms nl C cget t (c : C),
+  COK terms nl C cget t c <->
+  forall code args h, cget c code args = Some h ->
+    cref_ok_b terms t h = true /\ (forall r, In r args -> cref_ok_b terms t r = true) /\
+    (N.ltb code 39 = true -> minlvl nl t args <= crlevel nl t h).
+Proof. intros. reflexivity. Qed.
+Print Assumptions C14_own_cok_meaning.
+
+(* (3) ROLLBACK: after Err, without dropping anything else, the collection of Mgr/ConcGc.v
+   (= Manager::gc, C05) leaves exactly the nodes of the ORIGINAL table reachable from the
+   caller's tokens, with their level and children; entry by entry (count included) it is
+   the table a collection of the state before the operation would have produced *)
+Theorem C14_own_err_collect_not : forall terms nl tid cap C cget cadd par fuel s (c : C) f s' c',
+  CInv KBdd terms nl s ->
+  not_o terms nl tid cap C cget cadd par guards_code fuel s c f = OErr s' c' ->
+  (forall id,
+    ((exists nd', cfind (cn (collect KBdd terms nl s')) id = Some nd') <->
+     (exists nd, cfind (cn s) id = Some nd) /\
+     (exists o, In o (cown s) /\ creach (cn s) (eref (snd o)) (RN id))) /\
+    (forall nd', cfind (cn (collect KBdd terms nl s')) id = Some nd' ->
+       exists nd, cfind (cn s) id = Some nd /\ cl nd' = cl nd /\ cch nd' = cch nd)) /\
+  (forall id, cfind (cn (collect KBdd terms nl s')) id = cfind (cn (collect KBdd terms nl s)) id) /\
+  Permutation (cown (collect KBdd terms nl s')) (cown s).
+Proof. exact own_err_collect_not. Qed.
+Print Assumptions C14_own_err_collect_not.
+
+Theorem C14_own_err_collect_bin : forall terms nl tid cap gt C cget cadd par fuel s (c : C) op f g s' c',
+  CInv KBdd terms nl s ->
+  bin_o terms nl tid cap gt C cget cadd par guards_code fuel s c op f g = OErr s' c' ->
+  (forall id,
+    ((exists nd', cfind (cn (collect KBdd terms nl s')) id = Some nd') <->
+     (exists nd, cfind (cn s) id = Some nd) /\
+     (exists o, In o (cown s) /\ creach (cn s) (eref (snd o)) (RN id))) /\
+    (forall nd', cfind (cn (collect KBdd terms nl s')) id = Some nd' ->
+       exists nd, cfind (cn s) id = Some nd /\ cl nd' = cl nd /\ cch nd' = cch nd)) /\
+  (forall id, cfind (cn (collect KBdd terms nl s')) id = cfind (cn (collect KBdd terms nl s)) id) /\
+  Permutation (cown (collect KBdd terms nl s')) (cown s).
+Proof. exact own_err_collect_bin. Qed.
+Print Assumptions C14_own_err_collect_bin.
+
+Theorem C14_own_err_collect_ite : forall terms nl tid cap gt C cget cadd par fuel s (c : C) f g h s' c',
+  CInv KBdd terms nl s ->
+  ite_o terms nl tid cap gt C cget cadd par guards_code fuel s c f g h = OErr s' c' ->
+  (forall id,
+    ((exists nd', cfind (cn (collect KBdd terms nl s')) id = Some nd') <->
+     (exists nd, cfind (cn s) id = Some nd) /\
+     (exists o, In o (cown s) /\ creach (cn s) (eref (snd o)) (RN id))) /\
+    (forall nd', cfind (cn (collect KBdd terms nl s')) id = Some nd' ->
+       exists nd, cfind (cn s) id = Some nd /\ cl nd' = cl nd /\ cch nd' = cch nd)) /\
+  (forall id, cfind (cn (collect KBdd terms nl s')) id = cfind (cn (collect KBdd terms nl s)) id) /\
+  Permutation (cown (collect KBdd terms nl s')) (cown s).
+Proof. exact own_err_collect_ite. Qed.
+Print Assumptions C14_own_err_collect_ite.
+
+(* (4) the statements have teeth: with the recursor's guards created only after the second
+   `?` (the seeded ownership slip of ParallelRecursor::ternary; [p]: parallel / sequential)
+   a concrete run (table [ex3o], 8 slots, if x2 then x0 else x1) fails with one token more
+   than before - BALANCE is false - and after the collection a node that did not exist
+   before is still stored - ROLLBACK is false; the code's placement fails on the same
+   input too and satisfies both *)
+Theorem C14_own_balance_late_ternary_refuted : forall p,
+  (match ite_on ex_terms 3 0 8 p guards_late_ternary ex3o (RN 1) (RN 3) (RN 2) with
+   | OErr s' _ =>
+       ~ Permutation (cown s') (cown ex3o) /\
+       length (cown s') = S (length (cown ex3o)) /\
+       exists id, cfind (cn ex3o) id = None /\
+                  cfind (cn (collect KBdd ex_terms 3 s')) id <> None
+   | _ => False
+   end) /\
+  own_post ex_terms 3 0 unit ex3o (ite_on ex_terms 3 0 8 p guards_code ex3o (RN 1) (RN 3) (RN 2)) /\
+  ores_code (ite_on ex_terms 3 0 8 p guards_code ex3o (RN 1) (RN 3) (RN 2)) = 1.
+Proof. exact own_balance_late_ternary_refuted. Qed.
+Print Assumptions C14_own_balance_late_ternary_refuted.
+
+Theorem C14_own_balance_late_unary_binary_refuted : forall p,
+  leaks ex3o (not_on ex_terms 3 0 8 p guards_late_all ex3o (RN 6)) /\
+  leaks ex3o (bin_on ex_terms 3 0 8 p guards_late_all ex3o OXor (RN 1) (RN 6)).
+Proof. exact own_balance_late_unary_binary_refuted. Qed.
+Print Assumptions C14_own_balance_late_unary_binary_refuted.
+
+(* non-vacuity: [ex3o] (the table of C14_example_table as a state with exact counts and five
+   tokens) satisfies every hypothesis; every outcome occurs; a failed run leaves garbage
+   with exact counts that the collection removes completely *)
+Theorem C14_own_example_state : CInv KBdd ex_terms 3 ex3o /\ bterms_ok ex_terms /\
+  terms_unique_b ex_terms = true /\ COK ex_terms 3 acache ac_get (cn ex3o) [] /\
+  (forall i, In i [1; 2; 3; 4; 5; 6]%positive -> stored ex_terms (cn ex3o) (RN i)).
+Proof.
+  exact (conj ex3o_inv (conj (proj1 ex_terms_ok) (conj (proj2 ex_terms_ok)
+          (conj (proj1 (ex_cache_ok (cn ex3o))) ex3o_stored)))).
+Qed.
+Print Assumptions C14_own_example_state.
+
+Theorem C14_own_example_not : forall p,
+  map (fun cap => oout (not_on ex_terms 3 0 cap p guards_code ex3o (RN 5))) [0; 6; 7; 8; 9; 10] =
+  [(1, Some 6, Some 5, None, Some true); (1, Some 6, Some 5, None, Some true);
+   (1, Some 7, Some 5, None, Some true); (1, Some 8, Some 5, None, Some true);
+   (0, Some 9, Some 6, Some (RN 9), Some true); (0, Some 9, Some 6, Some (RN 9), Some true)].
+Proof. exact ex3o_not. Qed.
+Print Assumptions C14_own_example_not.
+
+Theorem C14_own_example_garbage :
+  match not_on ex_terms 3 0 8 false guards_code ex3o (RN 5) with
+  | OErr s' _ =>
+      cown s' = cown ex3o /\
+      map (fun p => (fst p, crc (snd p))) (cn s') =
+        [(8%positive, 0%N); (7%positive, 1%N); (6%positive, 1%N); (5%positive, 1%N);
+         (4%positive, 2%N); (3%positive, 1%N); (2%positive, 2%N); (1%positive, 2%N)] /\
+      collect KBdd ex_terms 3 s' = ex3o
+  | _ => False
+  end.
+Proof. exact ex3o_not_garbage. Qed.
+Print Assumptions C14_own_example_garbage.
